@@ -45,6 +45,32 @@ fn run(name: &str) -> String {
             u0.update(&s);
             format!("orig_union={} flagged_union={}", u0.estimate(), u.estimate())
         }
+        "hll8_register_200" => {
+            // an Hll8 image whose register byte exceeds 63 (no hash can produce it) is accepted; merging it rebuilds kxq with 1u64 << 200
+            let mut s = HllSketch::new(8, HllType::Hll8);
+            for i in 0..5000 { s.update(i); }
+            let mut b = s.serialize();
+            b[40 + 7] = 200;
+            let d = HllSketch::deserialize(&b);
+            match d {
+                Err(e) => format!("rejected: {e}"),
+                Ok(d) => {
+                    let mut u = HllUnion::new(8);
+                    u.update(&s);
+                    u.update(&d);
+                    let mut d2 = d.clone();
+                    d2.update(12345678);
+                    let h4 = u.to_sketch(HllType::Hll4);
+                    let h6 = u.to_sketch(HllType::Hll6);
+                    let h8 = u.to_sketch(HllType::Hll8);
+                    let sizes = (h4.serialize().len(), h6.serialize().len(), h8.serialize().len());
+                    let mut u2 = HllUnion::new(6);
+                    u2.update(&d);
+                    u2.update(&h4);
+                    format!("accepted; union estimate={} updated estimate={} sizes={:?} est4={} est6={} down={}", u.estimate(), d2.estimate(), sizes, h4.estimate(), h6.estimate(), u2.estimate())
+                }
+            }
+        }
         "hll4_aux_dup" => {
             let mut s = HllSketch::new(4, HllType::Hll4);
             for i in 0..200000 { s.update(i); }
